@@ -1679,6 +1679,518 @@ theorem inv_nil : Inv ([] : MHeap) := ⟨fun a o h => by simp at h, fun a o p h 
 theorem history_refines (ops : List Op) (hd : devRun [] ops = []) : run [] ops = Spec.run [] ops :=
   history_refines_from ops [] inv_nil hd
 
+/-! ## whole-history invariants of otto's object model -/
+
+theorem PStable_iff (prop p' : MProp) :
+    PStable prop p' ↔ tb p'.mode.c = false ∧ tb p'.mode.e = tb prop.mode.e ∧ isVal p'.value = isVal prop.value ∧
+      (tb prop.mode.w = false → p'.value = prop.value ∧ tb p'.mode.w = false) := by
+  simp only [PStable, Prod.mk.injEq]
+  cases tb prop.mode.w <;> simp
+
+theorem PStable.refl (prop : MProp) (hc : tb prop.mode.c = false) : PStable prop prop := by
+  rw [PStable_iff]; exact ⟨hc, rfl, rfl, fun h => ⟨rfl, h⟩⟩
+
+theorem PStable.trans {p q r : MProp} (h1 : PStable p q) (h2 : PStable q r) : PStable p r := by
+  rw [PStable_iff] at *
+  obtain ⟨a1, a2, a3, a4⟩ := h1
+  obtain ⟨b1, b2, b3, b4⟩ := h2
+  refine ⟨b1, b2.trans a2, b3.trans a3, fun hw => ?_⟩
+  obtain ⟨c1, c2⟩ := a4 hw
+  obtain ⟨d1, d2⟩ := b4 c2
+  exact ⟨d1.trans c1, d2⟩
+
+/-- how the key sequence (= propertyOrder) of one object may evolve: new names are appended at the
+    end, deleted names are removed, nothing is ever reordered -/
+inductive KeyEvol : List Name → List Name → Prop
+  | refl (ks : List Name) : KeyEvol ks ks
+  | snoc {ks ks' : List Name} (n : Name) : KeyEvol ks ks' → n ∉ ks' → KeyEvol ks (ks' ++ [n])
+  | erase {ks ks' : List Name} (n : Name) : KeyEvol ks ks' → KeyEvol ks (ks'.erase n)
+
+theorem KeyEvol.trans {a b c : List Name} (h1 : KeyEvol a b) (h2 : KeyEvol b c) : KeyEvol a c := by
+  induction h2 with
+  | refl => exact h1
+  | snoc n _ hn ih => exact KeyEvol.snoc n ih hn
+  | erase n _ ih => exact KeyEvol.erase n ih
+
+/-- no key twice -/
+theorem KeyEvol.nodup {a b : List Name} (h : KeyEvol a b) (ha : a.Nodup) : b.Nodup := by
+  induction h with
+  | refl => exact ha
+  | snoc n _ hn ih =>
+    rw [List.nodup_append]
+    refine ⟨ih, by simp, ?_⟩
+    intro x hx y hy
+    simp at hy
+    subst hy
+    intro e
+    subst e
+    exact hn hx
+  | erase n _ ih => exact ih.erase n
+
+theorem akeys_aerase {α} (n : Name) (l : List (Name × α)) : akeys (aerase n l) = (akeys l).erase n := by
+  induction l with
+  | nil => rfl
+  | cons kp t ih =>
+    obtain ⟨k, q⟩ := kp
+    simp only [aerase, akeys, List.map] at ih ⊢
+    by_cases hk : k = n
+    · subst hk; simp
+    · have : (k == n) = false := by simp [hk]
+      simp [hk, List.erase_cons, this, ih]
+
+theorem not_mem_akeys_of_alookup_none {α} (n : Name) (l : List (Name × α)) (h : alookup n l = none) : n ∉ akeys l := by
+  have := isSome_alookup_contains n l
+  rw [h] at this
+  intro hm
+  have : (akeys l).contains n = true := by simpa using hm
+  simp_all
+
+/-- what every operation may do to one object -/
+structure Evolves (o o' : MObj) : Prop where
+  proto : o'.proto = o.proto
+  ext : o.ext = false → o'.ext = false
+  keys : KeyEvol (akeys o.props) (akeys o'.props)
+  noGrowth : o.ext = false → ∀ k, k ∈ akeys o'.props → k ∈ akeys o.props
+  stable : ∀ n prop, alookup n o.props = some prop → tb prop.mode.c = false →
+    ∃ p', alookup n o'.props = some p' ∧ PStable prop p'
+
+theorem Evolves.refl (o : MObj) : Evolves o o :=
+  ⟨rfl, id, KeyEvol.refl _, fun _ _ h => h, fun _ prop h hc => ⟨prop, h, PStable.refl prop hc⟩⟩
+
+theorem Evolves.trans {a b c : MObj} (h1 : Evolves a b) (h2 : Evolves b c) : Evolves a c := by
+  refine ⟨h2.proto.trans h1.proto, fun h => h2.ext (h1.ext h), h1.keys.trans h2.keys,
+    fun h k hk => h1.noGrowth h k (h2.noGrowth (h1.ext h) k hk), ?_⟩
+  intro n prop hl hc
+  obtain ⟨p', hl', hs'⟩ := h1.stable n prop hl hc
+  have hc' : tb p'.mode.c = false := ((PStable_iff prop p').1 hs').1
+  obtain ⟨p'', hl'', hs''⟩ := h2.stable n p' hl' hc'
+  exact ⟨p'', hl'', hs'.trans hs''⟩
+
+theorem configurable_tb (p : MProp) : p.configurable = tb p.mode.c := by
+  obtain ⟨v, ⟨w, e, c⟩⟩ := p; simp
+
+/-- **every accepted [[DefineOwnProperty]] is an allowed evolution** (no region excluded) -/
+theorem defineOwn_evolves (o o' : MObj) (n : Name) (d : MProp) (ho : WFObj o)
+    (hd : WFDesc d ∨ (WFDescW d ∧ ∀ prop, alookup n o.props = some prop → d.value = prop.value))
+    (h : defineOwn o n d = some o') : Evolves o o' := by
+  obtain ⟨hp, he, hk⟩ := defineOwn_shape o o' n d h
+  have hkeys : KeyEvol (akeys o.props) (akeys o'.props) := by
+    rcases hk with hk | ⟨_, hn, hk⟩
+    · rw [hk]; exact KeyEvol.refl _
+    · rw [hk]; exact KeyEvol.snoc n (KeyEvol.refl _) (not_mem_akeys_of_alookup_none n _ hn)
+  refine ⟨hp, fun hx => he.trans hx, hkeys, ?_, ?_⟩
+  · intro hx k hk'
+    rcases hk with hk | ⟨hext, _, _⟩
+    · rw [hk] at hk'; exact hk'
+    · rw [hx] at hext; cases hext
+  · intro m prop hl hc
+    rw [defineOwn_eq] at h
+    cases hln : alookup n o.props with
+    | none =>
+      rw [hln] at h
+      simp only at h
+      cases hx : o.ext with
+      | false => simp [hx] at h
+      | true =>
+        simp only [hx, Bool.not_true, Bool.false_eq_true, if_false, Option.some.injEq] at h
+        subst h
+        have hmn : n ≠ m := by intro e; subst e; rw [hln] at hl; cases hl
+        exact ⟨prop, by simp [alookup_aupsert, hmn, hl], PStable.refl prop hc⟩
+    | some cur =>
+      rw [hln] at h
+      simp only at h
+      cases hm : defineProp cur d with
+      | none => rw [hm] at h; simp at h
+      | some r =>
+        rw [hm] at h
+        simp only [Option.map_some, Option.some.injEq] at h
+        subst h
+        cases r with
+        | none => exact ⟨prop, hl, PStable.refl prop hc⟩
+        | some p =>
+          by_cases hmn : n = m
+          · subst hmn
+            rw [hln] at hl
+            cases hl
+            refine ⟨p, by simp [alookup_aupsert], ?_⟩
+            refine defineProp_stable prop d p (ho _ (alookup_mem hln)) ?_ hc hm
+            rcases hd with hd | ⟨hd1, hd2⟩
+            · exact Or.inl hd
+            · exact Or.inr ⟨hd1, hd2 prop hln⟩
+          · exact ⟨prop, by simp [alookup_aupsert, hmn, hl], PStable.refl prop hc⟩
+
+/-- heaps: every existing object evolves in an allowed way (new objects may be appended) -/
+def HEvolves (h h' : MHeap) : Prop := ∀ (a : Nat) (o : MObj), h[a]? = some o → ∃ o', h'[a]? = some o' ∧ Evolves o o'
+
+theorem HEvolves.refl (h : MHeap) : HEvolves h h := fun _ o ho => ⟨o, ho, Evolves.refl o⟩
+
+theorem HEvolves.trans {a b c : MHeap} (h1 : HEvolves a b) (h2 : HEvolves b c) : HEvolves a c := by
+  intro x o ho
+  obtain ⟨o', ho', e1⟩ := h1 x o ho
+  obtain ⟨o'', ho'', e2⟩ := h2 x o' ho'
+  exact ⟨o'', ho'', e1.trans e2⟩
+
+theorem hevolves_set (h : MHeap) (a : Nat) (o o' : MObj) (ho : h[a]? = some o) (he : Evolves o o') :
+    HEvolves h (h.set a o') := by
+  intro b q hq
+  by_cases hab : a = b
+  · subst hab
+    rw [ho] at hq
+    cases hq
+    have ha : a < h.length := by
+      rcases Nat.lt_or_ge a h.length with hlt | hge
+      · exact hlt
+      · rw [List.getElem?_eq_none hge] at ho; cases ho
+    exact ⟨o', by simp [List.getElem?_set, ha], he⟩
+  · exact ⟨q, by simp [List.getElem?_set, hab, hq], Evolves.refl q⟩
+
+theorem hevolves_append (h : MHeap) (o' : MObj) : HEvolves h (h ++ [o']) := by
+  intro b q hq
+  have hb : b < h.length := by
+    rcases Nat.lt_or_ge b h.length with hlt | hge
+    · exact hlt
+    · rw [List.getElem?_eq_none hge] at hq; cases hq
+  exact ⟨q, by rw [List.getElem?_append_left hb]; exact hq, Evolves.refl q⟩
+
+/-- changing only the extensible flag to false -/
+theorem evolves_preventExt (o : MObj) : Evolves o { o with ext := false } :=
+  ⟨rfl, fun _ => rfl, KeyEvol.refl _, fun _ _ h => h, fun _ prop h hc => ⟨prop, h, PStable.refl prop hc⟩⟩
+
+/-- delete: only a configurable property disappears -/
+theorem evolves_delete (o : MObj) (n : Name) (prop : MProp) (hl : alookup n o.props = some prop)
+    (hc : prop.configurable = true) : Evolves o { o with props := aerase n o.props } := by
+  refine ⟨rfl, id, ?_, ?_, ?_⟩
+  · rw [akeys_aerase]; exact KeyEvol.erase n (KeyEvol.refl _)
+  · intro _ k hk
+    rw [akeys_aerase] at hk
+    exact List.mem_of_mem_erase hk
+  · intro m p hm hcm
+    have hmn : m ≠ n := by
+      intro e; subst e
+      rw [hl] at hm; cases hm
+      rw [configurable_tb] at hc
+      rw [hc] at hcm; cases hcm
+    exact ⟨p, by simp only [alookup_aerase m n _ hmn]; exact hm, PStable.refl p hcm⟩
+
+/-- the define-one-at-a-time loop: allowed evolution and well-formedness, outside `acc_to_data_keeps_accessor` -/
+theorem defineList_evolves : ∀ (l : List (Name × DescArg)) (o : MObj), WFObj o → (devList o l).2 = false →
+    Evolves o (defineList o l).1 ∧ WFObj (defineList o l).1 := by
+  intro l
+  induction l with
+  | nil => intro o ho _; exact ⟨Evolves.refl o, ho⟩
+  | cons nd t ih =>
+    obtain ⟨n, d⟩ := nd
+    intro o ho hdev
+    simp only [defineList, devList] at hdev ⊢
+    cases hd : OttoVerif.C07.toPropertyDescriptor d with
+    | none => exact ⟨Evolves.refl o, ho⟩
+    | some m =>
+      rw [hd] at hdev
+      simp only at hdev ⊢
+      cases hm : defineOwn o n m with
+      | none => exact ⟨Evolves.refl o, ho⟩
+      | some o' =>
+        rw [hm] at hdev
+        simp only [Bool.or_eq_false_iff] at hdev
+        have hwd := toPropertyDescriptor_wf d m hd
+        have hw' := defineOwn_wf o o' n m ho (WFDesc.weak hwd) hdev.1 hm
+        obtain ⟨e2, w2⟩ := ih o' hw' hdev.2
+        exact ⟨(defineOwn_evolves o o' n m ho (Or.inl hwd) hm).trans e2, w2⟩
+
+theorem freezeStep_evolves (o o' : MObj) (n : Name) (prop : MProp) (ho : WFObj o) (hl : alookup n o.props = some prop)
+    (h : freezeStep o n prop = some o') : Evolves o o' := by
+  simp only [freezeStep] at h
+  split at h
+  · refine defineOwn_evolves o o' n _ ho (Or.inr ⟨freezeDesc_wfw prop (ho _ (alookup_mem hl)), ?_⟩) h
+    intro q hq; rw [hl] at hq; cases hq; exact freezeDesc_value prop
+  · cases h; exact Evolves.refl o
+
+theorem freezeLoop_evolves : ∀ (ns : List Name) (o : MObj), WFObj o → Evolves o (freezeLoop o ns).1 := by
+  intro ns
+  induction ns with
+  | nil => intro o _; exact Evolves.refl o
+  | cons n ns ih =>
+    intro o ho
+    rw [freezeLoop_cons]
+    cases hl : alookup n o.props with
+    | none => exact ih o ho
+    | some prop =>
+      simp only []
+      cases hs : freezeStep o n prop with
+      | none => exact Evolves.refl o
+      | some o' =>
+        exact (freezeStep_evolves o o' n prop ho hl hs).trans (ih o' (freezeStep_wf o o' n prop ho hl hs).1)
+
+theorem sealStep_evolves (o o' : MObj) (n : Name) (prop : MProp) (ho : WFObj o) (hl : alookup n o.props = some prop)
+    (h : sealStep o n prop = some o') : Evolves o o' := by
+  simp only [sealStep] at h
+  split at h
+  · refine defineOwn_evolves o o' n _ ho (Or.inr ⟨sealDesc_wfw prop (ho _ (alookup_mem hl)), ?_⟩) h
+    intro q hq; rw [hl] at hq; cases hq; exact sealDesc_value prop
+  · cases h; exact Evolves.refl o
+
+theorem sealLoop_evolves : ∀ (ns : List Name) (o : MObj), WFObj o → Evolves o (sealLoop o ns).1 := by
+  intro ns
+  induction ns with
+  | nil => intro o _; exact Evolves.refl o
+  | cons n ns ih =>
+    intro o ho
+    rw [sealLoop_cons]
+    cases hl : alookup n o.props with
+    | none => exact ih o ho
+    | some prop =>
+      simp only []
+      cases hs : sealStep o n prop with
+      | none => exact Evolves.refl o
+      | some o' =>
+        exact (sealStep_evolves o o' n prop ho hl hs).trans (ih o' (sealStep_wf o o' n prop ho hl hs).1)
+
+/-- the `acc_to_data_keeps_accessor` flag of one step (the second component computed in `Driver.devStep`) -/
+def a2dOf (h : MHeap) : Op → Bool
+  | .defn a n d =>
+    (match h[a]?, OttoVerif.C07.toPropertyDescriptor d with
+     | some o, some desc => devAccToDataAt o n desc
+     | _, _ => false)
+  | .defs a l => (match h[a]? with | some o => (devList o l).2 | none => false)
+  | .create p l => (devList ⟨p, true, []⟩ l).2
+  | _ => false
+
+/-- **every operation is an allowed evolution of every object** and keeps the heap invariants –
+    in ALL regions except `acc_to_data_keeps_accessor` (which breaks well-formedness) -/
+theorem step_evolves (h : MHeap) (op : Op) (hi : Inv h) (ha : a2dOf h op = false) :
+    HEvolves h (step h op).1 ∧ Inv (step h op).1 := by
+  rcases op with ⟨s, a, n, v⟩ | ⟨s, a, n⟩ | ⟨a, n, d⟩ | ⟨a, l⟩ | ⟨p, l⟩ | ⟨a⟩ | ⟨a⟩ | ⟨a⟩
+  · -- put
+    refine ⟨?_, put_inv h s a n v hi⟩
+    simp only [step, put]
+    cases ho : h[a]? with
+    | none => exact HEvolves.refl h
+    | some o =>
+      simp only []
+      split
+      · exact HEvolves.refl h
+      · exact HEvolves.refl h
+      · rename_i prop _
+        cases hm : defineOwn o n { prop with value := .val v } with
+        | none => exact HEvolves.refl h
+        | some o' =>
+          exact hevolves_set h a o o' ho (defineOwn_evolves o o' n _ (hi.1 a o ho) (Or.inl (by simp [WFDesc])) hm)
+      · cases hm : defineOwn o n ⟨.val v, ⟨.on, .on, .on⟩⟩ with
+        | none => exact HEvolves.refl h
+        | some o' =>
+          exact hevolves_set h a o o' ho (defineOwn_evolves o o' n _ (hi.1 a o ho) (Or.inl (by simp [WFDesc])) hm)
+  · -- delete
+    refine ⟨?_, delete_inv h s a n hi⟩
+    simp only [step, delete]
+    cases ho : h[a]? with
+    | none => exact HEvolves.refl h
+    | some o =>
+      simp only []
+      cases hl : alookup n o.props with
+      | none => exact HEvolves.refl h
+      | some prop =>
+        simp only []
+        split
+        · rename_i hc
+          exact hevolves_set h a o _ ho (evolves_delete o n prop hl hc)
+        · exact HEvolves.refl h
+  · -- defineProperty
+    simp only [a2dOf] at ha
+    simp only [step]
+    cases ho : h[a]? with
+    | none => exact ⟨HEvolves.refl h, hi⟩
+    | some o =>
+      simp only []
+      cases hd : OttoVerif.C07.toPropertyDescriptor d with
+      | none => exact ⟨HEvolves.refl h, hi⟩
+      | some desc =>
+        simp only []
+        rw [ho, hd] at ha
+        cases hm : defineOwn o n desc with
+        | none => exact ⟨HEvolves.refl h, hi⟩
+        | some o' =>
+          have hwd := toPropertyDescriptor_wf d desc hd
+          exact ⟨hevolves_set h a o o' ho (defineOwn_evolves o o' n desc (hi.1 a o ho) (Or.inl hwd) hm),
+            inv_define h a o o' n desc hi ho (WFDesc.weak hwd) ha hm⟩
+  · -- defineProperties
+    simp only [a2dOf] at ha
+    simp only [step]
+    cases ho : h[a]? with
+    | none => exact ⟨HEvolves.refl h, hi⟩
+    | some o =>
+      rw [ho] at ha
+      obtain ⟨he, hw⟩ := defineList_evolves l o (hi.1 a o ho) ha
+      exact ⟨hevolves_set h a o _ ho he, inv_set h a o _ hi ho hw he.proto⟩
+  · -- create
+    simp only [a2dOf] at ha
+    have hw0 : WFObj (⟨p, true, []⟩ : MObj) := fun kp hkp => by cases hkp
+    obtain ⟨he, hw⟩ := defineList_evolves l ⟨p, true, []⟩ hw0 ha
+    have core : (∀ q : Nat, p = some q → q < h.length) →
+        HEvolves h (if (defineList ⟨p, true, []⟩ l).2 = true then (h, Outcome.typeError, ([] : List Call))
+          else (h ++ [(defineList ⟨p, true, []⟩ l).1], Outcome.ok, [])).1 ∧
+        Inv (if (defineList ⟨p, true, []⟩ l).2 = true then (h, Outcome.typeError, ([] : List Call))
+          else (h ++ [(defineList ⟨p, true, []⟩ l).1], Outcome.ok, [])).1 := by
+      intro hp
+      cases hb : (defineList ⟨p, true, []⟩ l).2 with
+      | true => simp only [if_true]; exact ⟨HEvolves.refl h, hi⟩
+      | false =>
+        simp only [Bool.false_eq_true, if_false]
+        refine ⟨hevolves_append h _, inv_append h _ hi hw ?_⟩
+        intro q hq
+        rw [he.proto] at hq
+        exact hp q hq
+    simp only [step]
+    cases p with
+    | none => simpa using core (fun q hq => by cases hq)
+    | some pa =>
+      by_cases hpa : pa < h.length
+      · simpa [hpa] using core (fun q hq => by cases hq; exact hpa)
+      · simp only [hpa, if_false]; exact ⟨HEvolves.refl h, hi⟩
+  · -- freeze
+    refine ⟨?_, (freeze_refines h a hi).2⟩
+    simp only [step]
+    cases ho : h[a]? with
+    | none => exact HEvolves.refl h
+    | some o =>
+      have he := freezeLoop_evolves (akeys o.props) o (hi.1 a o ho)
+      simp only []
+      cases hr : freezeLoop o (akeys o.props) with
+      | mk o' b =>
+        rw [hr] at he
+        cases b with
+        | true => exact hevolves_set h a o o' ho he
+        | false => exact hevolves_set h a o _ ho (he.trans (evolves_preventExt o'))
+  · -- seal
+    refine ⟨?_, (seal_refines h a hi).2⟩
+    simp only [step]
+    cases ho : h[a]? with
+    | none => exact HEvolves.refl h
+    | some o =>
+      have he := sealLoop_evolves (akeys o.props) o (hi.1 a o ho)
+      simp only []
+      cases hr : sealLoop o (akeys o.props) with
+      | mk o' b =>
+        rw [hr] at he
+        cases b with
+        | true => exact hevolves_set h a o o' ho he
+        | false => exact hevolves_set h a o _ ho (he.trans (evolves_preventExt o'))
+  · -- preventExtensions
+    refine ⟨?_, preventExt_inv h a hi⟩
+    simp only [step]
+    cases ho : h[a]? with
+    | none => exact HEvolves.refl h
+    | some o => exact hevolves_set h a o _ ho (evolves_preventExt o)
+
+/-- the heap after a history -/
+def heapAfter (h : MHeap) : List Op → MHeap
+  | [] => h
+  | op :: ops => heapAfter (step h op).1 ops
+
+/-- no step of the history is in `acc_to_data_keeps_accessor` -/
+def a2dFree (h : MHeap) : List Op → Prop
+  | [] => True
+  | op :: ops => a2dOf h op = false ∧ a2dFree (step h op).1 ops
+
+/-- the driver's region list determines `a2dFree` -/
+theorem a2dOf_of_devStep (h : MHeap) (op : Op) (h' : MHeap)
+    (hn : "acc_to_data_keeps_accessor" ∉ devStep h op h') : a2dOf h op = false := by
+  rcases op with ⟨s, a, n, v⟩ | ⟨s, a, n⟩ | ⟨a, n, d⟩ | ⟨a, l⟩ | ⟨p, l⟩ | ⟨a⟩ | ⟨a⟩ | ⟨a⟩ <;> try rfl
+  · simp only [devStep, List.mem_append, not_or] at hn
+    simp only [a2dOf]
+    cases ho : h[a]? <;> cases hd : OttoVerif.C07.toPropertyDescriptor d <;> simp_all
+  · simp only [devStep, List.mem_append, not_or] at hn
+    simp only [a2dOf]
+    cases ho : h[a]? <;> simp_all
+  · simp only [devStep, List.mem_append, not_or] at hn
+    simp only [a2dOf]
+    simp_all
+
+theorem a2dFree_of_devRun : ∀ (ops : List Op) (h : MHeap),
+    "acc_to_data_keeps_accessor" ∉ devRun h ops → a2dFree h ops := by
+  intro ops
+  induction ops with
+  | nil => intro h _; trivial
+  | cons op ops ih =>
+    intro h hn
+    simp only [devRun, List.mem_append, not_or] at hn
+    exact ⟨a2dOf_of_devStep h op _ hn.1, ih _ hn.2⟩
+
+/-- **all histories**: every object present at the start evolves in an allowed way through any
+    finite history that avoids `acc_to_data_keeps_accessor`, whatever other regions it passes through -/
+theorem history_evolves : ∀ (ops : List Op) (h : MHeap), Inv h → a2dFree h ops →
+    HEvolves h (heapAfter h ops) ∧ Inv (heapAfter h ops) := by
+  intro ops
+  induction ops with
+  | nil => intro h hi _; exact ⟨HEvolves.refl h, hi⟩
+  | cons op ops ih =>
+    intro h hi ha
+    obtain ⟨h1, i1⟩ := step_evolves h op hi ha.1
+    obtain ⟨h2, i2⟩ := ih _ i1 ha.2
+    exact ⟨h1.trans h2, i2⟩
+
+/-- **inv_nonextensible_no_growth**: a non-extensible object stays non-extensible and never gains a property -/
+theorem inv_nonextensible_no_growth (ops : List Op) (h : MHeap) (hi : Inv h) (ha : a2dFree h ops)
+    (a : Nat) (o : MObj) (ho : h[a]? = some o) (hne : o.ext = false) :
+    ∃ o', (heapAfter h ops)[a]? = some o' ∧ o'.ext = false ∧ ∀ k, k ∈ akeys o'.props → k ∈ akeys o.props := by
+  obtain ⟨o', ho', he⟩ := (history_evolves ops h hi ha).1 a o ho
+  exact ⟨o', ho', he.ext hne, he.noGrowth hne⟩
+
+/-- **inv_nonconfigurable_stable**: a non-configurable property is never deleted, never becomes configurable,
+    keeps its enumerability and its kind (data / accessor); an accessor keeps its getter and setter -/
+theorem inv_nonconfigurable_stable (ops : List Op) (h : MHeap) (hi : Inv h) (ha : a2dFree h ops)
+    (a : Nat) (o : MObj) (n : Name) (prop : MProp) (ho : h[a]? = some o) (hl : alookup n o.props = some prop)
+    (hc : prop.configurable = false) :
+    ∃ o' p', (heapAfter h ops)[a]? = some o' ∧ alookup n o'.props = some p' ∧
+      p'.configurable = false ∧ p'.enumerable = prop.enumerable ∧ isVal p'.value = isVal prop.value ∧
+      (isVal prop.value = false → p'.value = prop.value) := by
+  obtain ⟨o', ho', he⟩ := (history_evolves ops h hi ha).1 a o ho
+  rw [configurable_tb] at hc
+  obtain ⟨p', hl', hs⟩ := he.stable n prop hl hc
+  rw [PStable_iff] at hs
+  obtain ⟨s1, s2, s3, s4⟩ := hs
+  refine ⟨o', p', ho', hl', by rw [configurable_tb]; exact s1, ?_, s3, ?_⟩
+  · obtain ⟨v, ⟨w, e, c⟩⟩ := prop; obtain ⟨v', ⟨w', e', c'⟩⟩ := p'; simpa using s2
+  · intro hv
+    have hw := hi.1 a o ho _ (alookup_mem hl)
+    obtain ⟨v, ⟨w, e, c⟩⟩ := prop
+    cases v with
+    | nil => exact hw.elim
+    | val v => cases hv
+    | gs g s =>
+      have : w = .unset := hw.2.2
+      subst this
+      exact (s4 rfl).1
+
+/-- **inv_nonwritable_stable**: the value of a non-writable, non-configurable data property never changes
+    (and it never becomes writable again) -/
+theorem inv_nonwritable_stable (ops : List Op) (h : MHeap) (hi : Inv h) (ha : a2dFree h ops)
+    (a : Nat) (o : MObj) (n : Name) (v : Val) (m : Mode) (ho : h[a]? = some o)
+    (hl : alookup n o.props = some ⟨.val v, m⟩)
+    (hc : (MProp.mk (.val v) m).configurable = false) (hw : (MProp.mk (.val v) m).writable = false) :
+    ∃ o' m', (heapAfter h ops)[a]? = some o' ∧ alookup n o'.props = some ⟨.val v, m'⟩ ∧
+      (MProp.mk (.val v) m').writable = false ∧ (MProp.mk (.val v) m').configurable = false := by
+  obtain ⟨o', ho', he⟩ := (history_evolves ops h hi ha).1 a o ho
+  obtain ⟨w, e, c⟩ := m
+  simp only [configurable_eq, writable_eq] at hc hw
+  obtain ⟨p', hl', hs⟩ := he.stable n _ hl hc
+  rw [PStable_iff] at hs
+  obtain ⟨s1, _, _, s4⟩ := hs
+  obtain ⟨hv, hw'⟩ := s4 hw
+  obtain ⟨v', ⟨w', e', c'⟩⟩ := p'
+  simp only at hv
+  subst hv
+  exact ⟨o', ⟨w', e', c'⟩, ho', hl', by simpa using hw', by simpa using s1⟩
+
+/-- **inv_order**: the property order of an object only ever changes by appending a new name at the
+    end or removing a deleted name (order = order of first creation of the present keys), and no
+    key ever occurs twice -/
+theorem inv_order (ops : List Op) (h : MHeap) (hi : Inv h) (ha : a2dFree h ops)
+    (a : Nat) (o : MObj) (ho : h[a]? = some o) :
+    ∃ o', (heapAfter h ops)[a]? = some o' ∧ KeyEvol (akeys o.props) (akeys o'.props) ∧
+      ((akeys o.props).Nodup → (akeys o'.props).Nodup) := by
+  obtain ⟨o', ho', he⟩ := (history_evolves ops h hi ha).1 a o ho
+  exact ⟨o', ho', he.keys, he.keys.nodup⟩
+
 /-! ## Non-vacuity of the hypotheses -/
 
 /-- a heap with a data and an accessor property … -/
